@@ -204,6 +204,8 @@ def build_market(cfg: Dict[str, Any], paths: List[Dict[str, Any]], K: float, dt:
         stock.register_buffer("spot", spot)
         stock.register_buffer("variance", var)
     deriv = EuropeanOption(stock, call=cfg["call"], strike=K, maturity=(T - 1) * dt)
+    if cfg.get("clause") == "double_plus_one":
+        deriv.add_clause("double_plus_one", lambda d, payoff: 2 * payoff + 1)
     if any(f in ("spot", "log_spot") for f in cfg["feats"]):
         deriv.list(lambda d: 4 * d.ul().spot)
     hedge: List[Any] = [stock]
